@@ -428,7 +428,7 @@ def bounded(rep: Report, tier, seed):
     from .. import runtime as rt
     rng = np.random.default_rng(seed)
     mx = 5 if tier == "quick" else 6
-    b = rep.add_bounded(Bounded("blur_operator", f"H,W <= {mx} (non-square); kernels 1x1 .. image size; odd/even; asymmetric; motion/Gaussian generators",
+    b = rep.add_bounded(Bounded("blur_operator", f"H,W <= {mx} (non-square) and sizes with a large prime factor (13, 17, 23); kernels 1x1 .. image size; odd/even; asymmetric; motion/Gaussian generators",
                                 "impulse response, mass, channel independence and equality with the index-level circular convolution; distinct by (H,W,kH,kW,kind)"))
     sizes_ = [(H, W) for H in range(1, mx + 1) for W in range(1, mx + 1) if (tier == "thorough" or (H + 2 * W) % 3 == 0 or H == W)]
     for (H, W) in sizes_:
@@ -437,6 +437,13 @@ def bounded(rep: Report, tier, seed):
             psf = rng.random((kH, kW)) + 0.05
             psf /= psf.sum()
             b.case(f"{P}.bounded.blur", (H, W, kH, kW), lambda psf=psf, H=H, W=W: _check_blur(psf, H, W, rng), f"blur {H}x{W} with a {kH}x{kW} asymmetric kernel",
+                   inputs={"psf": psf, "H": H, "W": W})
+    # image sizes with a large prime factor (13, 17, 23, 26): an FFT taken at a padded "fast" length is no longer the periodic convolution there
+    for (H, W) in ((13, 4), (5, 17), (23, 3), (13, 13)) + (((26, 5), (3, 29)) if tier == "thorough" else ()):
+        for (kH, kW) in ((3, 3), (min(5, H), min(4, W))):
+            psf = rng.random((kH, kW)) + 0.05
+            psf /= psf.sum()
+            b.case(f"{P}.bounded.blur", (H, W, kH, kW), lambda psf=psf, H=H, W=W: _check_blur(psf, H, W, rng), f"blur {H}x{W} (size with a large prime factor) with a {kH}x{kW} asymmetric kernel",
                    inputs={"psf": psf, "H": H, "W": W})
     q = rt.real().qslst
     for nm, psf in (("gauss r1", q.build_psf_gaussian(1, 0.8)), ("gauss r2", q.build_psf_gaussian(2, 1.5)), ("motion 3@30", q.build_psf_motion(3, 30.0)),
